@@ -184,6 +184,18 @@ CLAIMED.update({
          'maximum-likelihood claim at the limit; the differing stopping metrics (log vs log10); sparse inputs.',
     ref='DESIGN.md section 8 C12'),
 })
+CLAIMED.update({
+ 'C14': dict(engine='symnp + spmd',
+    technique='symbolic execution of kcenters(mpi_mode=True) and mpi.ops under an SPMD simulator (W ranks in lock-step, collective matching checked) against the serial run on the concatenation; uninterpreted tie-free metric; z3',
+    text='The unmodified distributed k-centers runs once per rank under a simulator that gives allgather/bcast/Bcast/allreduce/Barrier their MPI '
+         'semantics and checks that all ranks issue the same collective sequence (no deadlock); after the repo reassembly routines z3 proves '
+         'centers (global indices), labels and distances equal the serial algorithm on the concatenated data, for every trajectory-length '
+         'vector and world size in the bound and every tie-free metric. Striped max / mean / random choice / gather and the local<->global '
+         'index conversions are proved against their serial definitions.',
+    note='Trusted: shim, simulator (MPI semantics incl. arrival-order independence of matched collectives), z3. Outside: real transport, '
+         'striped file loading, the distributed k-medoids sweep.',
+    ref='DESIGN.md sections 6 and 8 C14'),
+})
 PENDING = 'check not built yet in this session (work in progress; see DESIGN.md section 8 for the plan)'
 NA = {}
 
@@ -211,6 +223,7 @@ m = {
            'source_commits': [], 'add_only': True},
  'engines': [
    {'name': 'symnp', 'path': 'symnp/', 'serves_properties': sorted(CLAIMED), 'kind_free_text': E1},
+   {'name': 'spmd', 'path': 'spmd/', 'serves_properties': ['C14'], 'kind_free_text': 'deterministic SPMD simulator (fake mpi4py) with collective-matching check'},
    {'name': 'cy2smt', 'path': 'cy2smt/', 'serves_properties': ['C12', 'C13', 'C18', 'C19'], 'kind_free_text': E2},
  ],
  'checks': checks,
